@@ -60,4 +60,27 @@ theorem place_getElem? {α} (key : α → Nat) (xs : List α) (init : Array α) 
 
 
 
+/-- `checkSheet` positions rows by their number: slot `j` holds the (last) row numbered `j+1`,
+or an empty row, and is renumbered `j+1`; the result has exactly `last.r` slots. -/
+theorem checkSheet_slot (rows : List Row) (h : incFrom 0 rows = true) :
+    ∃ out, checkSheet rows = some out ∧
+      out.length = ((rows.getLast?.map (fun r : Row => r.r)).getD 0).toNat ∧
+      ∀ j, j < out.length →
+        out[j]? = some { (match rows.reverse.find? (fun r => (r.r - 1).toNat == j) with
+                          | some r => r
+                          | none => zeroRow) with r := (j : Int) + 1 } := by
+  unfold checkSheet
+  simp only [h, if_true]
+  refine ⟨_, rfl, ?_, ?_⟩
+  · simp [place_size]
+  · intro j hj
+    simp only [List.length_map, List.length_zipIdx, Array.length_toList, place_size, Array.size_replicate] at hj
+    simp only [List.getElem?_map, List.getElem?_zipIdx, Array.getElem?_toList, place_getElem?,
+      Array.size_replicate, hj, if_true]
+    cases hf : rows.reverse.find? (fun r => (r.r - 1).toNat == j) with
+    | some r => simp
+    | none => simp [hj]
+
+
+
 end XlModel.Adjust
